@@ -64,7 +64,7 @@ def equiv(cx, a, b, label):
         lib.obs_equiv(cx, a, b, label)
 
 
-def h_matmul(cx, n, nf, lays, cplx=False, numbers=False):
+def h_matmul(cx, n, nf, lays, cplx=False, numbers=False, covf=None):
     import pyerrors as pe
     lib.sym_env(cx, *MODS)
     # cplx: bool (all factors) or one letter per factor: r real observables, c complex observables, f plain float matrix, z plain complex matrix
@@ -76,6 +76,14 @@ def h_matmul(cx, n, nf, lays, cplx=False, numbers=False):
             mats.append(P if kinds[f] == 'f' else P + 1j * np.array([[0.5 * i + 0.25 * j - 1.0 for j in range(n)] for i in range(n)]))
         else:
             mats.append(mk_matrix(cx, 'ABC'[f], n, lays[f:] + lays[:f], kinds[f] == 'c', numbers=((0, n - 1),) if (numbers and f == 1) else ()))
+    if covf:
+        # factors flagged in covf carry an external covariance input (one shared 2-dimensional input, gradients symbolic per factor); the others are pure Monte Carlo
+        for f in range(nf):
+            if covf[f]:
+                c, _ = lib.mk_covobs(cx, 'cov%d' % f, 'cv', 2)
+                for i in range(n):
+                    for j in range(n):
+                        mats[f][i, j] = mats[f][i, j] * c if (i + j) % 2 == 0 else mats[f][i, j] + c
     R = pe.linalg.matmul(*mats)
     E = explicit_product(mats)
     cx.expect(R.shape == E.shape, 'shape')
@@ -350,6 +358,11 @@ def jobs(tier, seed):
     add('matmul', n=1, nf=2, lays=[E, Ei], cplx=True)
     add('matmul', n=2, nf=2, lays=[E, F_], cplx=True)
     add('matmul', n=2, nf=3, lays=[E], cplx=True)
+    # covariance inputs on some factors only, in every position
+    for covf in ([False, True], [True, False], [True, True]):
+        add('matmul', n=2, nf=2, lays=[E, F_], covf=covf)
+    add('matmul', n=2, nf=3, lays=[E], covf=[True, False, True])
+    add('matmul', n=2, nf=3, lays=[E], covf=[False, False, True])
     # real, complex and plain factors in every neighbouring order
     for kinds in ('rc', 'cr', 'fc', 'cf', 'cz'):      # a plain complex factor next to real observables only is outside the statement (raises AttributeError)
         add('matmul', n=2, nf=2, lays=[E, F_], cplx=kinds)
